@@ -193,7 +193,8 @@ Inductive op :=
 | OIndex (f c i : nat)
 | OEncode (f c : nat)
 | ODecode (f c : nat) (vals : list Z)
-| OPrefixed (f : nat) (p : Z).
+| OPrefixed (f : nat) (p : Z)
+| OSort (f : nat).                     (* sort.Sort(frame): judged in Corr.v, the order among equal keys is not fixed *)
 
 (* what an operation reports *)
 Inductive out :=
@@ -232,6 +233,7 @@ Definition step (s : state) (o : op) : state * out :=
   | ODecode f c vals => (mkS (decode h (getf s f) c vals) (spool s), RUnit)
   | OPrefixed f p =>
       match prefixed h (getf s f) p with Ok g => push h s g | Panic => (s, RPanic) end
+  | OSort _ => (s, RUnit)   (* see Corr.sort_ok: the resulting heap is taken from the observation *)
   end.
 
 Definition init : state := mkS [] [].
